@@ -1,6 +1,6 @@
 (* C17 — scalar, text and tag encodings round-trip over their whole domain.
    Statements only; proofs are `exact <lemma of EncodingProps>`. *)
-From Zvt Require Import Base Length Cp437 Encoding EncodingProps.
+From Zvt Require Import Base Length Cp437 Encoding EncodingProps Utf8Props DateTimeProps.
 Open Scope N_scope.
 
 (* little- and big-endian integers of every width, with arbitrary trailing data *)
@@ -84,6 +84,26 @@ Qed.
 Example C17_ex_cp437 : cp437_dec [65; 225; 0; 0] = [65; 223] /\ cp437_enc [65; 223] = Ok [65; 225].
 Proof. split; reflexivity. Qed.
 
+(* UTF-8: every Rust string (every list of Unicode scalar values) encodes, and decodes back to itself *)
+Theorem C17_utf8_roundtrip : forall s, forallb scalar_ok s = true ->
+  exists bs, utf8_enc s = Ok bs /\ utf8_dec bs = Some s.
+Proof. exact utf8_roundtrip. Qed.
+
+(* date-time TLV: every calendar date-time with a year 0..9999 (leap years, month lengths, 00:00:00..23:59:59) *)
+Theorem C17_datetime_roundtrip : forall (y : Z) (mo d h mi s : N),
+  (0 <= y <= 9999)%Z -> ymd_ok y mo d = true -> hms_ok h mi s = true ->
+  exists bs, datetime_enc y mo d h mi s = Ok bs /\ datetime_dec bs = Ok (VDate y mo d h mi s, []) /\ blen bs <= 13.
+Proof. exact datetime_roundtrip. Qed.
+
+Example C17_ex_leap_day : exists bs, datetime_enc 2024 2 29 23 59 58 = Ok bs /\
+  bs = [31; 14; 4; 32; 36; 2; 41; 31; 15; 3; 35; 89; 88] /\ datetime_dec bs = Ok (VDate 2024 2 29 23 59 58, []).
+Proof. eexists. split; [vm_compute; reflexivity|]. split; [reflexivity|vm_compute; reflexivity]. Qed.
+Example C17_ex_utf8 : utf8_enc [233; 8364; 128512] = Ok [195; 169; 226; 130; 172; 240; 159; 152; 128]
+  /\ utf8_dec [195; 169; 226; 130; 172; 240; 159; 152; 128] = Some [233; 8364; 128512].
+Proof. split; vm_compute; reflexivity. Qed.
+
+Print Assumptions C17_utf8_roundtrip.
+Print Assumptions C17_datetime_roundtrip.
 Print Assumptions C17_int_roundtrip.
 Print Assumptions C17_int_short_is_error.
 Print Assumptions C17_bcd_roundtrip.
